@@ -535,9 +535,11 @@ impl Plist {
         for (idx, ch) in bytes.iter().enumerate() {
             if *ch == b'\n' {
                 /*
-                 * Valid line containing non-whitespace characters.
+                 * Valid line containing non-whitespace characters: tstart
+                 * is the index of the first such character, or idx if the
+                 * line is empty or all whitespace.
                  */
-                if start < idx && tstart + 1 < idx {
+                if tstart < idx {
                     lines.push((start, idx));
                 }
                 /*
